@@ -10,24 +10,45 @@ import vlib
 PROP = "C12"
 
 RULE = ("one evaluation = one schedule of one scenario executed on a fresh Resolver under the cooperative scheduler "
-        "(11 fixed scenario families enumerated depth-first up to a cap plus seeded random schedules; seeded random "
-        "scenarios with 1-3 subscribers on 1-2 triggers: same / different input, different forwarded headers, filters, "
-        "failing hooks / Start / Write / Flush / Heartbeat, hook emissions, synchronous subscribers, heartbeat ticks, "
-        "shutdown) and replayed step by step on the extracted LTS. Distinct by the hash of (scenario, schedule); "
-        "non-trivial when the schedule switches away from an actor that is parked inside an operation (after its first "
-        "yield) or blocked, i.e. two actors overlap inside a modelled critical window.")
+        "(18 fixed scenario families explored depth-first and with seeded random schedules inside equal time slices, plus "
+        "seeded random scenarios with 1-3 subscribers on 1-2 triggers: same / different input, different forwarded headers, "
+        "filters, failing hooks / Start / Write / Flush / Heartbeat, hook emissions, synchronous subscribers, heartbeat "
+        "ticks, shutdown, sources that call the updater from two goroutines, histories in which nobody is asked to leave) "
+        "and replayed step by step on the extracted LTS. Parking points: the verifYield call sites of resolve.go, the gates "
+        "of the scripted data source, and EVERY call on the subscriber's writer (Write / Flush / Complete / Error / "
+        "Heartbeat / AsyncErrorWriter.WriteError park inside the call, i.e. while the real code holds writeMu), so client "
+        "operations, joins, teardown and further updater calls are scheduled DURING a write. C13 adds the trigger-identity "
+        "stream: the real graphql_datasource.SubscriptionSource (from the real planner, over a fake "
+        "GraphQLSubscriptionClient) driven through the real Resolver on ~60 subscription specs that are equal or differ in "
+        "exactly one component (url, header, body.query / variables / extensions, use_sse, sse_method_post, ws_sub_protocol, "
+        "forwarded-header rules, forwarded / non-forwarded client header values, initial_payload). Distinct by the hash of "
+        "(scenario, schedule); non-trivial when the schedule switches away from an actor that is parked inside an operation "
+        "(after its first yield) or blocked, i.e. two actors overlap inside a modelled critical window.")
 
 ASSUMPTIONS = [
     "Coq 8.16.1 kernel (coqc, full .vo build); no native_compute; vm_compute only in Examples and refutation witnesses",
     "extraction with ExtrOcamlBasic only; ocamlfind ocamlopt 4.13.1; ocaml/common/prelude.ml + ocaml/c12/driver.ml "
-    "(trace replay with search over Go map iteration order, observables of one release compared as a multiset)",
+    "(trace replay with search over Go map iteration order and over silent progress of blocked actors, observables of "
+    "one release compared as a multiset)",
     "the LTS is sequentially consistent over lock / atomic regions (Resolver.mu, trigger.mu, writeMu, updater mu, "
     "removed, initialized, completed); Go scheduler, mutexes, channels, WaitGroup, context cancellation are modelled",
-    "modelled rather than verified: response rendering (resolvable / loader: one Write per event, outcome oracle), "
-    "SubscriptionFilter.SkipEvent (oracle pass / skip / error), xxhash trigger ids treated as injective, heartbeat "
-    "timing (always due, or skipped by an environment-chosen 'recent' set), client never reuses a SubscriptionIdentifier",
-    "harness: cooperative scheduler parking goroutines at verifYield call sites and data-source gates, quiescence read "
-    "off runtime.Stack goroutine states, goroutine identity via per-subscriber context wrappers",
+    "modelled rather than verified: response rendering (resolvable / loader: one message Write per event followed by "
+    "Flush, outcome oracle; a message is several io.Writer chunks, the harness treats the chunk that identifies the "
+    "event as the entry of the Write), SubscriptionFilter.SkipEvent (oracle pass / skip / error), heartbeat timing "
+    "(always due, or skipped by an environment-chosen 'recent' set), client never reuses a SubscriptionIdentifier",
+    "trigger identity: the model's key is a function keyof(rendered input, forwarded-headers hash) ASSUMED injective "
+    "(c13_shared_iff_same_input states it as a hypothesis, c13_sharing_needs_injective_key shows it is needed): no "
+    "xxhash64 collision, HashTriggerInput feeds every byte of the rendered input. The ident stream tests exactly this on "
+    "the real SubscriptionSource / prepareTrigger for generated inputs; collisions of the 64-bit hash on inputs outside "
+    "the generated families are outside the check",
+    "completion of an ASYNCHRONOUS subscriber is not observable by any client (its completed channel is internal): the "
+    "harness takes the return of the call that reported its removal (SubscriptionCountDec) as the witness; for "
+    "synchronous subscribers the return of ResolveGraphQLSubscription is the witness",
+    "the premise of the quiescence clauses (every registered subscriber was asked to leave / its trigger ended / "
+    "shutdown) is read off the schedule and, for trigger membership, off the LTS replay of the prefix on which model and "
+    "implementation agree; the clauses themselves use implementation observables only",
+    "harness: cooperative scheduler parking goroutines at verifYield call sites, data-source gates and writer calls, "
+    "quiescence read off runtime.Stack goroutine states, goroutine identity via per-subscriber context wrappers",
     "subscriptionUpdater.Heartbeat (not in the SubscriptionUpdater interface) and SkipLoader / authorization early exits are not modelled",
 ]
 
@@ -59,7 +80,7 @@ def harness_cases(chk, exe, race=False):
                 chk.log("reusing harness run %s" % cases)
                 return cases, None
         if chk.tier == "quick":
-            opts = "-ms 26000 -perfam 120 -nrand 500 -perrand 3"
+            opts = "-ms 32000 -perfam 120 -nrand 600 -perrand 3"
             to = 120
         elif race:
             opts = "-ms 240000 -perfam 400 -nrand 3000 -perrand 3"
@@ -109,7 +130,8 @@ def own(results, prop):
 
 def distribution(cases):
     d = {"runs": len(cases), "steps": 0, "blocked_steps": 0, "subscribers": {}, "sync_subscribers": 0, "filters": 0,
-         "failing_hook_or_start": 0, "shutdown": 0, "heartbeat_ticks": 0, "yield_points": {}}
+         "failing_hook_or_start": 0, "shutdown": 0, "heartbeat_ticks": 0, "yield_points": {},
+         "switches_while_a_writer_call_is_in_progress": 0, "runs_with_two_updater_calls_in_flight": 0, "families": {}}
     for c in cases:
         d["steps"] += c.count("((start ") + c.count("((go ")
         d["blocked_steps"] += c.count("(blk)")
@@ -124,6 +146,21 @@ def distribution(cases):
                     d["filters"] += f[5] != "0"
                     d["failing_hook_or_start"] += (f[9] == "fail") + (f[11] == "fail")
         d["shutdown"] += "(shutdown)" in c
+        fm = re.match(r"\(run \(scn (-?\d+)", c)
+        if fm:
+            d["families"][fm.group(1)] = d["families"].get(fm.group(1), 0) + 1
+        # a step that leaves an actor parked inside a writer call, followed by a step of another actor
+        st = re.findall(r"\(\((?:start|go) ([a-z:0-9#]+)[^()]*(?:\([^()]*\))?\) \((at [a-zA-Z0-9.]+|fin|blk|run|panic)\)", c)
+        for i in range(len(st) - 1):
+            if st[i][1] == "at ext.w" and st[i + 1][0] != st[i][0]:
+                d["switches_while_a_writer_call_is_in_progress"] += 1
+        srcs = re.findall(r"\(\(start (src:\d+) \((?:update|complete|error|done|close) ", c)
+        if len(srcs) >= 2:
+            # two updater calls started before the first one finished
+            first_fin = re.search(r"\(%s \(fin\)\)|\(\(go %s\) \(fin\)" % (srcs[0], srcs[0]), c)
+            second = c.find("((start %s " % srcs[1])
+            if first_fin is None or second < first_fin.start():
+                d["runs_with_two_updater_calls_in_flight"] += 1
         d["heartbeat_ticks"] += c.count("((go hb)")
         for p in re.findall(r"\(at ([a-zA-Z0-9.]+)\)", c):
             d["yield_points"][p] = d["yield_points"].get(p, 0) + 1
@@ -149,6 +186,13 @@ def run_common(chk, prop, extra_dirs):
     if b:
         vlib.digest_batch(chk, b[0], own(b[1], prop), classify, state)
         samples += [c[:600] for c in b[0][:1]]
+    if prop == "C13":
+        # trigger identity on the real SubscriptionSource / prepareTrigger (deterministic, ~1 s)
+        b = vlib.run_batch(chk, "%s ident -seed %d -out {out}" % (exe, chk.seed), model, "ident")
+        if b:
+            vlib.digest_batch(chk, b[0], own(b[1], prop), classify, state)
+            samples += [c[:600] for c in b[0][1:2]]
+            chk.coverage["ident_observations"] = len(b[0])
     cases, err = harness_cases(chk, exe)
     if cases is None:
         chk.add_violation("tie:%s/harness-run" % prop, err, found_input=False)
@@ -199,6 +243,25 @@ def replay_common(chk, prop, path):
     if isinstance(case, dict):
         ex = case.get("examples") or []
         case = ex[0]["case"] if ex else None
+    if (case or "").startswith("(ident"):
+        ok, log = vlib.build_model("C12")
+        ok2, log2, exe = vlib.build_harness("c12")
+        if not (ok and ok2):
+            chk.add_violation("tie:%s/harness-build" % prop, (log + log2)[-2000:], found_input=False)
+            return
+        model = os.path.join(vlib.BIN, "model_c12")
+        chk.log("replay: trigger-identity stream, seed %s" % r.get("seed", chk.seed))
+        state = {}
+        b = vlib.run_batch(chk, "%s ident -seed %d -out {out}" % (exe, int(r.get("seed", chk.seed))), model, "replay")
+        if b:
+            for (ln, st, d) in own(b[1], prop):
+                if st != "ok":
+                    chk.log("replay verdict: %s %s" % (st, d[:300]))
+            vlib.digest_batch(chk, b[0], own(b[1], prop), classify, state)
+        vlib.conclude_differential(chk, state, None)
+        chk.coverage["rule"] = RULE
+        chk.coverage["samples"] = [c[:600] for c in (b[0][:2] if b else [])]
+        return
     m = re.match(r'\(run \(scn (-?\d+) (\d+) (\d+)\) \(choices "([^"]*)"\)', case or "")
     if not m:
         chk.log("replay: no schedule in %s" % path)
